@@ -22,3 +22,23 @@ Definition run_month (op : Z) (args : list sx) : sx :=
       end
   | _ => sx_err
   end.
+
+(* op 11: one middleware sequence over a library of several blocks (each middleware instance sees every block):
+   (11 (kinds...) (block...)); the model is stateless, so this is the map of op 10 *)
+Definition run_month_lib (args : list sx) : sx :=
+  match args with
+  | [ks; L bs] =>
+      match as_list dec_mkind ks, as_list dec_block (L bs) with
+      | Some kinds, Some blks =>
+          let rs := map (fun blk => fold_left (fun (acc : bres) k => match acc with BVal x => month_entry k x | o => o end)
+                                              kinds (BVal blk)) blks in
+          if existsb (fun r => match r with BSkip => true | _ => false end) rs then r_skip
+          else if existsb (fun r => match r with BRaise => true | _ => false end) rs then r_exc 1
+          else r_ok (L (map (fun r => match r with BVal b' => enc_block b' | _ => sx_err end) rs))
+      | _, _ => sx_err
+      end
+  | _ => sx_err
+  end.
+
+Definition run_month_any (op : Z) (args : list sx) : sx :=
+  if op =? 11 then run_month_lib args else run_month op args.
